@@ -844,7 +844,10 @@ fn export<'tcx>(tcx: TyCtxt<'tcx>) {
                             _ => None,
                         };
                         if let Some(d) = d {
-                            if !d.is_local() && tcx.adt_def(d).is_enum() && !ext.contains(&d) {
+                            // enums (switched on / constructed) and structs built by a struct literal (foreign wire messages: their
+                            // field names are needed by the encoder/decoder coverage rules)
+                            let is_lit_struct = matches!(&b.1, Rvalue::Aggregate(..)) && tcx.adt_def(d).is_struct();
+                            if !d.is_local() && (tcx.adt_def(d).is_enum() || is_lit_struct) && !ext.contains(&d) {
                                 ext.push(d);
                             }
                         }
